@@ -306,7 +306,10 @@ inline void Exec::cal_calibrations(int ki) {
         if (!N) { new_alloc(ki, true, true); if (K.news.empty()) return; ni = (int)K.news.size() - 1; N = K.news[ni].get(); ex = XP_FAIL; why = "not-solved"; }
         c.note("vnacal_add_calibration(k%d, %s, k%d.n%d)%s", ki, ascii(name).c_str(), nk, ni, ex == XP_FAIL ? "  [invalid]" : "");
         Call k = mk("vnacal_add_calibration", ex, C_USAGE, why, O_CAL, ki);
-        int ci = icall(k, [&] { return vnacal_add_calibration(K.p, name.c_str(), N->p); });
+        // (the name of the calibration being replaced, or -- 1 in 4 -- of another live calibration, may be the library's own string)
+        if (alias_turn(4)) { auto live = live_cis(K); if (!live.empty()) { const char *nm = vnacal_get_name(K.p, live[ncalls % live.size()]); if (nm) name = nm; } }
+        const char *narg = name_arg(K, name, "vnacal_add_calibration");
+        int ci = icall(k, [&] { return vnacal_add_calibration(K.p, narg, N->p); });
         if (ci >= 0 && ex == XP_OK) { N->has_cal = false; check_cal_index(ki, ci, name, N); }
         else if (ci >= 0 && nk == ki) N->has_cal = false;
         break;
@@ -327,7 +330,8 @@ inline void Exec::cal_calibrations(int ki) {
         for (int ci : live_cis(K)) if (name == vnacal_get_name(K.p, ci)) present = true;
         c.note("vnacal_find_calibration(k%d, %s)%s", ki, ascii(name).c_str(), present ? "" : "  [missing]");
         Call k = mk("vnacal_find_calibration", present ? XP_OK : XP_FAIL, C_MISSING, present ? "valid" : "missing-name", O_CAL, ki);
-        int ci = icall(k, [&] { return vnacal_find_calibration(K.p, name.c_str()); });
+        const char *narg = name_arg(K, name, "vnacal_find_calibration");
+        int ci = icall(k, [&] { return vnacal_find_calibration(K.p, narg); });
         if (ci >= 0) check_cal_index(ki, ci, name, nullptr);
         break;
     }
